@@ -19,8 +19,10 @@ Heap0 == <<
                  <<VStr("boom"), VFn("boom")>>, <<VStr("seven"), VFn("seven")>> >>),
   Cell("list", <<VInt(1), VInt(2), VRef(3)>>),
   Cell("dict", << <<VStr("k"), VInt(5)>>, <<VStr("o"), VRef(1)>>, <<VInt(0), VStr("uv")>> >>),
-  Cell("tuple", <<VInt(4), VRef(2)>>) >>
-Targets == {VRef(1), VRef(2), VRef(3), VInt(6), VInt(-3), VStr("s"), VNone}
+  Cell("tuple", <<VInt(4), VRef(2)>>),
+  \* a callable attribute object (calling it returns "called"); its attribute `none` is None, `n` is 3
+  Cell("cobj", << <<VStr("none"), VNone>>, <<VStr("n"), VInt(3)>>, <<VStr("l"), VRef(2)>> >>) >>
+Targets == {VRef(1), VRef(2), VRef(3), VRef(5), VInt(6), VInt(-3), VStr("s"), VNone}
 
 O(op, arg) == [op |-> op, arg |-> arg]
 TN == TArg(<<O(".", VStr("n"))>>)            \* T.n    (3 on the object, fails elsewhere)
@@ -28,8 +30,8 @@ TZ == TArg(<<O(".", VStr("z"))>>)            \* T.z    (0)
 TK == TArg(<<O("[", Lit(VStr("k")))>>)       \* T['k'] (5 on the dict)
 SN == SpecArg(<<O(".", VStr("n"))>>)         \* Spec(T.n)
 
-AttrOps == {O(".", VStr(a)) : a \in {"n", "z", "s", "l", "d", "t", "echo", "first", "boom", "seven", "x"} \cup
-                                     (IF Level >= 2 THEN {"m", "none"} ELSE {})}
+AttrOps == {O(".", VStr(a)) : a \in {"n", "z", "s", "l", "d", "t", "echo", "first", "boom", "seven", "x", "none"} \cup
+                                     (IF Level >= 2 THEN {"m"} ELSE {})}
 TL == TArg(<<O(".", VStr("l"))>>)            \* T.l    (a list on the object: unhashable as an index)
 ItemArgs == {Lit(VInt(0)), Lit(VInt(-1)), Lit(VInt(5)), Lit(VStr("k")), Lit(VStr("x")), TN, TZ, TL,
              [a |-> "list", items |-> <<Lit(VStr("k"))>>],
@@ -53,7 +55,7 @@ BinOps == {"+", "-", "*", "/", "#", "%", ":", "&", "|", "^"}
 BinArgs == {Lit(VInt(2)), Lit(VInt(0)), TN, Lit(VStr("s")), Lit(VInt(1)), Lit(VFrac(1, 1))} \cup
            (IF Level >= 2 THEN {Lit(VInt(-2)), Lit(VInt(3)), TZ, [a |-> "list", items |-> <<Lit(VInt(9))>>], Lit(VNone)} ELSE {})
 ArithOps == {O(b, a) : b \in BinOps, a \in BinArgs} \cup {O("~", VNone), O("_", VNone)}
-TinyAttr == {O(".", VStr(a)) : a \in {"n", "l", "d", "echo", "boom", "x"}}
+TinyAttr == {O(".", VStr(a)) : a \in {"n", "l", "d", "echo", "boom", "x", "none"}}
 TinyItem == {O("[", a) : a \in {Lit(VInt(0)), Lit(VStr("k")), TN, TL, SliceArg(VNone, VNone, VInt(-1))}}
 TinyArith == {O(b, a) : b \in {"+", "*", "#", "%", ":", "&"}, a \in {Lit(VInt(2)), Lit(VInt(0)), Lit(VFrac(1, 1)), TN}} \cup {O("~", VNone)}
 Alphabet == IF Level = 0 THEN TinyAttr \cup TinyItem \cup CallOps \cup TinyArith
